@@ -25,6 +25,7 @@ import (
 	"github.com/sdcio/data-server/pkg/cache"
 	"github.com/sdcio/data-server/pkg/config"
 	schemaClient "github.com/sdcio/data-server/pkg/datastore/clients/schema"
+	"github.com/sdcio/data-server/pkg/datastore/target"
 	"github.com/sdcio/data-server/pkg/datastore/types"
 	"github.com/sdcio/data-server/pkg/utils"
 	"github.com/sdcio/data-server/pkg/utils/testhelper"
@@ -147,9 +148,10 @@ func (c *vrcCache) wire(cc *mockcacheclient.MockClient) {
 
 // one step of a history: set (json != "") or delete an intent
 type vrcStep struct {
-	name string
-	prio int32
-	json string
+	name   string
+	prio   int32
+	json   string
+	cancel bool // the transaction is cancelled instead of confirmed: everything is as before it
 }
 
 type vrcLive struct {
@@ -160,31 +162,39 @@ type vrcLive struct {
 func TestVerifReplayConverge(t *testing.T) {
 	fnLL, fnG := "(*datastore.Datastore).lowlevelTransactionSet", "(*tree.sharedEntryAttributes).getRegularDeletes"
 	const (
-		ifA     = `{"interface":[{"name":"ethernet-1/1","description":"a"}]}`
-		ifB     = `{"interface":[{"name":"ethernet-1/1","description":"b"}]}`
-		ifTwo   = `{"interface":[{"name":"ethernet-1/1","description":"a"},{"name":"ethernet-1/2","description":"x"}]}`
-		ifSub   = `{"interface":[{"name":"ethernet-1/1","description":"a","subinterface":[{"index":1,"description":"s"}]}]}`
-		case1   = `{"choices":{"case1":{"case-elem":{"elem":"v"}}}}`
-		case2   = `{"choices":{"case2":{"log":true}}}`
-		case2E  = `{"choices":{"case2":{}}}`
-		llOne   = `{"leaflist":{"entry":["a","b"]}}`
-		llTwo   = `{"leaflist":{"entry":["b","c"]}}`
-		pattern = `{"patterntest":"hallo 12"}`
+		ifA      = `{"interface":[{"name":"ethernet-1/1","description":"a"}]}`
+		ifB      = `{"interface":[{"name":"ethernet-1/1","description":"b"}]}`
+		ifTwo    = `{"interface":[{"name":"ethernet-1/1","description":"a"},{"name":"ethernet-1/2","description":"x"}]}`
+		ifSub    = `{"interface":[{"name":"ethernet-1/1","description":"a","subinterface":[{"index":1,"description":"s"}]}]}`
+		case1    = `{"choices":{"case1":{"case-elem":{"elem":"v"}}}}`
+		case2    = `{"choices":{"case2":{"log":true}}}`
+		case2E   = `{"choices":{"case2":{}}}`
+		case1Log = `{"choices":{"case1":{"log":true}}}`
+		llOne    = `{"leaflist":{"entry":["a","b"]}}`
+		llTwo    = `{"leaflist":{"entry":["b","c"]}}`
+		pattern  = `{"patterntest":"hallo 12"}`
 	)
 	histories := map[string][]vrcStep{
-		"shadowed value becomes active when the ruling intent is deleted": {{"A", 10, ifA}, {"B", 5, ifB}, {"B", 5, ""}},
-		"lower-precedence intent changes nothing":                         {{"B", 5, ifB}, {"A", 10, ifA}, {"A", 10, ""}},
-		"entry removed from an intent":                                    {{"A", 10, ifTwo}, {"A", 10, ifA}},
-		"nested entry removed, then intent deleted":                       {{"A", 10, ifSub}, {"A", 10, ifA}, {"A", 10, ""}},
-		"same intent switches the choice case":                            {{"A", 10, case2}, {"A", 10, case1}},
-		"same intent switches the choice case back":                       {{"A", 10, case1}, {"A", 10, case2}, {"A", 10, case1}},
-		"ruling intent with the other case is deleted":                    {{"O2", 10, case2}, {"O1", 5, case1}, {"O1", 5, ""}},
-		"unchanged intent re-applied":                                     {{"A", 10, ifTwo}, {"A", 10, ifTwo}},
-		"unchanged intent with leaf-list and pattern re-applied":          {{"A", 10, llOne}, {"B", 20, pattern}, {"A", 10, llOne}},
-		"leaf-list replaced":                                              {{"A", 10, llOne}, {"A", 10, llTwo}},
-		"priority of an intent changed":                                   {{"A", 10, ifA}, {"B", 7, ifB}, {"A", 5, ifA}},
-		"presence container emptied, then intent deleted":                 {{"A", 10, case2}, {"A", 10, case2E}, {"A", 10, ""}},
-		"presence container populated":                                    {{"A", 10, case2E}, {"A", 10, case2}},
+		"shadowed value becomes active when the ruling intent is deleted": {{name: "A", prio: 10, json: ifA}, {name: "B", prio: 5, json: ifB}, {name: "B", prio: 5, json: ""}},
+		"lower-precedence intent changes nothing":                         {{name: "B", prio: 5, json: ifB}, {name: "A", prio: 10, json: ifA}, {name: "A", prio: 10, json: ""}},
+		"entry removed from an intent":                                    {{name: "A", prio: 10, json: ifTwo}, {name: "A", prio: 10, json: ifA}},
+		"nested entry removed, then intent deleted":                       {{name: "A", prio: 10, json: ifSub}, {name: "A", prio: 10, json: ifA}, {name: "A", prio: 10, json: ""}},
+		"same intent switches the choice case":                            {{name: "A", prio: 10, json: case2}, {name: "A", prio: 10, json: case1}},
+		"same intent switches the choice case back":                       {{name: "A", prio: 10, json: case1}, {name: "A", prio: 10, json: case2}, {name: "A", prio: 10, json: case1}},
+		"ruling intent with the other case is deleted":                    {{name: "O2", prio: 10, json: case2}, {name: "O1", prio: 5, json: case1}, {name: "O1", prio: 5, json: ""}},
+		"unchanged intent re-applied":                                     {{name: "A", prio: 10, json: ifTwo}, {name: "A", prio: 10, json: ifTwo}},
+		"unchanged intent with leaf-list and pattern re-applied":          {{name: "A", prio: 10, json: llOne}, {name: "B", prio: 20, json: pattern}, {name: "A", prio: 10, json: llOne}},
+		"leaf-list replaced":                                              {{name: "A", prio: 10, json: llOne}, {name: "A", prio: 10, json: llTwo}},
+		"priority of an intent changed":                                   {{name: "A", prio: 10, json: ifA}, {name: "B", prio: 7, json: ifB}, {name: "A", prio: 5, json: ifA}},
+		"presence container emptied, then intent deleted":                 {{name: "A", prio: 10, json: case2}, {name: "A", prio: 10, json: case2E}, {name: "A", prio: 10, json: ""}},
+		"presence container populated":                                    {{name: "A", prio: 10, json: case2E}, {name: "A", prio: 10, json: case2}},
+		"created intent cancelled, then another transaction":              {{name: "B", prio: 20, json: pattern}, {name: "A", prio: 10, json: ifA, cancel: true}, {name: "C", prio: 30, json: llOne}},
+		"changed intent cancelled":                                        {{name: "A", prio: 10, json: ifA}, {name: "A", prio: 10, json: ifTwo, cancel: true}},
+		"re-prioritised intent cancelled":                                 {{name: "A", prio: 10, json: ifA}, {name: "B", prio: 7, json: ifB}, {name: "A", prio: 5, json: ifA, cancel: true}},
+		"weaker intent adds the other case":                               {{name: "O1", prio: 5, json: case1}, {name: "O2", prio: 10, json: case2}},
+		"weaker intent adds a member of the winning case":                 {{name: "O1", prio: 5, json: case1}, {name: "O3", prio: 8, json: case2}, {name: "O2", prio: 10, json: case1Log}},
+		"stronger intent takes the choice over":                           {{name: "O2", prio: 10, json: case2}, {name: "O1", prio: 5, json: case1}},
+		"deleted intent cancelled":                                        {{name: "A", prio: 10, json: ifTwo}, {name: "A", prio: 10, json: "", cancel: true}},
 	}
 	names := make([]string, 0, len(histories))
 	for k := range histories {
@@ -199,8 +209,32 @@ func TestVerifReplayConverge(t *testing.T) {
 		dc := &vrcCache{intended: map[string]*cache.Update{}, running: map[string]*cache.Update{}}
 		cc := mockcacheclient.NewMockClient(ctrl)
 		dc.wire(cc)
+		device := map[string]string{}
 		sbi := mocktarget.NewMockTarget(ctrl)
-		sbi.EXPECT().Set(gomock.Any(), gomock.Any()).AnyTimes().Return(&sdcpb.SetDataResponse{}, nil)
+		sbi.EXPECT().Set(gomock.Any(), gomock.Any()).AnyTimes().DoAndReturn(
+			func(ctx context.Context, source target.TargetSource) (*sdcpb.SetDataResponse, error) {
+				// the device applies the deletes, then the updates of what it is sent (also for rollbacks)
+				dels, err := source.ToProtoDeletes(ctx)
+				if err != nil {
+					return nil, err
+				}
+				upds, err := source.ToProtoUpdates(ctx, true)
+				if err != nil {
+					return nil, err
+				}
+				for _, del := range dels {
+					prefix := strings.Join(utils.ToStrings(del, false, false), "/")
+					for k := range device {
+						if k == prefix || strings.HasPrefix(k, prefix+"/") {
+							delete(device, k)
+						}
+					}
+				}
+				for _, u := range upds {
+					device[strings.Join(utils.ToStrings(u.GetPath(), false, false), "/")] = utils.TypedValueToString(u.GetValue())
+				}
+				return &sdcpb.SetDataResponse{}, nil
+			})
 		scl, schema, err := testhelper.InitSDCIOSchema()
 		if err != nil {
 			t.Fatal(err)
@@ -208,12 +242,11 @@ func TestVerifReplayConverge(t *testing.T) {
 		d := &Datastore{config: &config.DatastoreConfig{Name: "dev1", Schema: schema, Validation: &config.Validation{DisableConcurrency: true}},
 			sbi: sbi, cacheClient: cc, schemaClient: schemaClient.NewSchemaClientBound(schema.GetSchema(), scl), dmutex: &sync.Mutex{}}
 		d.transactionManager = types.NewTransactionManager(NewDatastoreRollbackAdapter(d))
-		device := map[string]string{}
 		live := map[string]*vrcLive{}
 		var done []string
 		for si, st := range steps {
 			n++
-			done = append(done, fmt.Sprintf("%s@%d:%s", st.name, st.prio, map[bool]string{true: "delete", false: st.json}[st.json == ""]))
+			done = append(done, fmt.Sprintf("%s@%d:%s%s", st.name, st.prio, map[bool]string{true: "delete", false: st.json}[st.json == ""], map[bool]string{true: " (cancelled)", false: ""}[st.cancel]))
 			in := fmt.Sprintf("history=%s,steps=%v", hname, done)
 			req := &sdcpb.TransactionIntent{Intent: st.name, Priority: st.prio}
 			if st.json == "" {
@@ -227,7 +260,9 @@ func TestVerifReplayConverge(t *testing.T) {
 			}
 			// what the intent says, through the real expansion (paths and typed values)
 			unchanged := false
-			if st.json == "" {
+			if st.cancel {
+				// nothing changes
+			} else if st.json == "" {
 				delete(live, st.name)
 			} else {
 				leaves := map[string]string{}
@@ -239,6 +274,9 @@ func TestVerifReplayConverge(t *testing.T) {
 					unchanged = true
 				}
 				live[st.name] = &vrcLive{prio: st.prio, leaves: leaves}
+			}
+			if st.cancel {
+				// (the oracle above was not updated; the block below only computes `leaves` for set steps)
 			}
 			id := fmt.Sprintf("t%d", si)
 			var rsp *sdcpb.TransactionSetResponse
@@ -269,20 +307,13 @@ func TestVerifReplayConverge(t *testing.T) {
 			if rejected {
 				break
 			}
-			if err := d.TransactionConfirm(ctx, id); err != nil {
-				t.Fatalf("%s: confirm: %v", in, err)
-			}
-			// the device applies deletes, then updates
-			for _, del := range rsp.GetDelete() {
-				prefix := strings.Join(utils.ToStrings(del, false, false), "/")
-				for k := range device {
-					if k == prefix || strings.HasPrefix(k, prefix+"/") {
-						delete(device, k)
-					}
+			if st.cancel {
+				if err := d.TransactionCancel(ctx, id); err != nil {
+					fmt.Printf("REPLAY-FAIL fn=%s clause=panic input=%s why=cancel failed: %v\n", fnLL, in, err)
+					break
 				}
-			}
-			for _, u := range rsp.GetUpdate() {
-				device[strings.Join(utils.ToStrings(u.GetPath(), false, false), "/")] = utils.TypedValueToString(u.GetValue())
+			} else if err := d.TransactionConfirm(ctx, id); err != nil {
+				t.Fatalf("%s: confirm: %v", in, err)
 			}
 			// C09
 			if unchanged && (len(rsp.GetUpdate()) > 0 || len(rsp.GetDelete()) > 0) {
@@ -346,6 +377,9 @@ func TestVerifReplayConverge(t *testing.T) {
 					}
 				}
 				fmt.Printf("REPLAY-FAIL fn=%s clause=%s input=%s why=device differs from the merge of the live intents: %s\n", fn, clause, in, strings.Join(diffs, "; "))
+				if strings.Contains(hname, "case") && !strings.HasSuffix(clause, ".known") {
+					fmt.Printf("REPLAY-FAIL fn=%s clause=%s input=%s why=device differs from the merge of the live intents: %s\n", "(*tree.sharedEntryAttributes).populateChoiceCaseResolvers", clause, in, strings.Join(diffs, "; "))
+				}
 				if fn != fnLL {
 					fmt.Printf("REPLAY-FAIL fn=%s clause=%s input=%s why=device differs from the merge of the live intents: %s\n", fnLL, clause, in, strings.Join(diffs, "; "))
 				}
@@ -374,4 +408,5 @@ func TestVerifReplayConverge(t *testing.T) {
 	}
 	fmt.Printf("REPLAY-CASES fn=%s n=%d\n", fnLL, n)
 	fmt.Printf("REPLAY-CASES fn=%s n=%d\n", fnG, n)
+	fmt.Printf("REPLAY-CASES fn=%s n=%d\n", "(*tree.sharedEntryAttributes).populateChoiceCaseResolvers", n)
 }
